@@ -27,6 +27,9 @@ with the real routines of /repo).  Floats are the 16 hex digits of their IEEE bi
   d2s nr nc nnz V(nr*nc)                  -> 1 | 0 adr I(nr) I(nr) I(adr) V(adr)   mju_dense2sparse
   spcomp P V(cap) minval                  -> ret I(nr) I(nr) I(cap) V(cap)         mju_compressSparse
   sptr P capT V(cap)                      -> I(nc) I(nc) I(capT) V(capT)           mju_transposeSparse (buffers pre-filled with 0)
+  sptrs P capT V(cap)                     -> I(nc) I(nc) I(capT) V(capT) I(nc)     mju_transposeSparse with res_rowsuper
+                                                                    (rowsuper buffer pre-filled with 3)
+  spsuper P                               -> I(nr)                  mju_superSparse (buffer pre-filled with 3)
   spcount na nb I(na) I(nb)               -> int                    mju_combineSparseCount
   spcomb a b dnnz ns cap I(cap) V(cap) I(ns) V(ns)  -> nnz I(nnz) V(nnz)           mju_combineSparse
   anything else / malformed / a precondition of the model violated -> bad-op
@@ -184,6 +187,20 @@ def op : P String := do
         { res := Vector.replicate capT 0.0, rownnz := Vector.replicate nc 0, rowadr := Vector.replicate nc 0,
           colind := Vector.replicate capT 0 } with
     | some t => pure (join [showN t.rownnz, showN t.rowadr, showN t.colind, showF t.res])
+    | none => failure
+  | "sptrs" =>
+    let ⟨_, nc, cap, p⟩ ← pat
+    let capT ← nat; let m ← fvec cap; done
+    match transposeSparseS m p.rownnz p.rowadr p.colind nc
+        { res := Vector.replicate capT 0.0, rownnz := Vector.replicate nc 0, rowadr := Vector.replicate nc 0,
+          colind := Vector.replicate capT 0 } (Vector.replicate nc 3) with
+    | some (t, sup) => pure (join [showN t.rownnz, showN t.rowadr, showN t.colind, showF t.res, showN sup])
+    | none => failure
+  | "spsuper" =>
+    let ⟨nr, _, _, p⟩ ← pat
+    done
+    match superSparse p (Vector.replicate nr 3) with
+    | some sup => pure (showN sup)
     | none => failure
   | "spcount" =>
     let na ← nat; let nb ← nat; let a ← nvec na; let b ← nvec nb; done
